@@ -40,6 +40,7 @@ type Out struct {
 	Notes       []string          `json:"notes"`
 	Samples     []json.RawMessage `json:"samples"`
 	Outcomes    []uint64          `json:"outcomes"`
+	PkgStates   []uint64          `json:"pkg_states"`
 }
 
 type Viol struct {
@@ -63,9 +64,14 @@ var out = &Out{Counters: map[string]int64{}}
 var outcomeSet = map[uint64]bool{}
 
 func (o *Out) fail(sig, msg string, c Case) {
+	// one violation per category (input-modified, nondeterministic, shared-write, sched-result, ...);
+	// the entries affected are counted per category
+	if i := strings.IndexByte(sig, ':'); i >= 0 {
+		o.Counters["violating:"+sig]++
+		sig = sig[:i]
+	}
 	for _, v := range o.Violations {
 		if v.Sig == sig {
-			o.Counters["dup:"+sig]++
 			return
 		}
 	}
@@ -331,8 +337,9 @@ func modeHistory(depth, shard, nshards int, fresh [][]byte) {
 	if !bytes.Equal(snap, f.Snapshot()) {
 		out.fail("input-modified:history", "the shared fixtures changed during the call histories", Case{Mode: "history"})
 	}
-	out.States += int64(len(states))
-	out.Counters["distinct_package_states"] = int64(len(states))
+	for h := range states {
+		out.PkgStates = append(out.PkgStates, h)
+	}
 }
 
 func names(seq []int) []string {
@@ -499,25 +506,30 @@ func (x *exec) choices() []int {
 // execution. A schedule is a list of deviations from the default schedule, so
 // the memory held is O(bound), and every deviation-free suffix is the
 // canonical "keep running the same thread, then ascending ids" order.
-func explore(threads []int, bound int, maxSteps int64, check func(x *exec)) (execs int64, capped bool) {
+func explore(threads []int, bound int, maxSteps int64, shard, nshards int, check func(x *exec)) (execs int64, capped bool) {
 	var steps int64
-	var rec func(devs []int, from int)
-	rec = func(devs []int, from int) {
+	// An execution belongs to shard 0 if its schedule contains no preemption and
+	// otherwise to the shard (index of its first preemption) mod nshards.
+	// Preemption-free executions are run by every shard (they are needed to
+	// discover the points below them) but checked and counted by shard 0 only.
+	var rec func(devs []int, from int, preempted bool)
+	rec = func(devs []int, from int, preempted bool) {
 		if capped {
 			return
 		}
 		x := run(threads, devs, alpha.NewFix(0), false)
-		execs++
+		if preempted || shard == 0 {
+			execs++
+			check(x)
+		}
 		steps += int64(len(x.points))
-		check(x)
 		if maxSteps > 0 && steps >= maxSteps {
 			capped = true
 			return
 		}
 		if x.devPos != len(devs) {
-			return // a prefix deviation was never reached: counted, not extended
+			return // a deviation was never reached: nothing below it
 		}
-		// keep only what the children need: (enabled count, running flag, chosen) per point
 		pts := x.points
 		pre := 0
 		for i, p := range pts {
@@ -530,8 +542,11 @@ func explore(threads []int, bound int, maxSteps int64, check func(x *exec)) (exe
 					if cost > bound {
 						continue
 					}
+					if p.running && !preempted && i%nshards != shard {
+						continue // first preemption of this schedule: another shard's subtree
+					}
 					nd := append(append(make([]int, 0, len(devs)+2), devs...), i, alt)
-					rec(nd, i+1)
+					rec(nd, i+1, preempted || p.running)
 					if capped {
 						return
 					}
@@ -542,7 +557,7 @@ func explore(threads []int, bound int, maxSteps int64, check func(x *exec)) (exe
 			}
 		}
 	}
-	rec(nil, 0)
+	rec(nil, 0, false)
 	return execs, capped
 }
 
@@ -572,14 +587,26 @@ func modeSched(bound, nthreads, shard, nshards int, mode string, fresh [][]byte)
 		exploreClean = mode == "allx"
 	}
 	for ci, th := range combos {
-		if ci%nshards != shard {
+		owner := ci%nshards == shard
+		if !owner && !exploreClean {
 			continue
 		}
 		c := Case{Mode: "sched", Threads: th}
+		if !owner {
+			// explored combinations are split across all shards by their first preemption
+			execs, capped := exploreCombo(th, bound, stepBudget, shard, nshards, fresh)
+			out.States += execs
+			out.Validated += execs
+			if capped {
+				out.Counters["capped"]++
+				out.Notes = append(out.Notes, fmt.Sprintf("exploration of %v stopped at the step budget in shard %d after %d executions (bound %d not completed for this combination)", names(th), shard, execs, bound))
+			}
+			continue
+		}
 		out.Evals++
 		out.Nontrivial++
 		out.sample(c)
-		// sequential reference in this process and write monitor at bound 0
+		// sequential orders with the write monitor at every scheduling point
 		writes := 0
 		for order := 0; order < 2; order++ {
 			fix := alpha.NewFix(0)
@@ -606,29 +633,17 @@ func modeSched(bound, nthreads, shard, nshards int, mode string, fresh [][]byte)
 			continue
 		}
 		out.Counters["combos_explored"]++
-		execs, capped := explore(th, bound, stepBudget, func(x *exec) {
-			out.Transitions += int64(len(x.points))
-			if x.divergence != "" {
-				out.fail("harness-divergence", x.divergence, Case{Mode: "sched", Threads: th, Schedule: x.devs})
-				return
-			}
-			var key []byte
-			for t, e := range th {
-				if x.panics[t] != "" {
-					out.fail("sched-panic:"+alpha.Entries[e].Name, fmt.Sprintf("%s panicked when interleaved with %v: %s", alpha.Entries[e].Name, names(th), x.panics[t]), Case{Mode: "sched", Threads: th, Schedule: x.choices()})
-					continue
-				}
-				key = append(key, x.results[t]...)
-				if !bytes.Equal(x.results[t], fresh[e]) {
-					out.fail("sched-result:"+alpha.Entries[e].Name, fmt.Sprintf("%s returned %s when interleaved with %v under schedule %v; sequentially it returns %s", alpha.Entries[e].Name, alpha.Describe(x.results[t]), names(th), compress(x.choices()), alpha.Describe(fresh[e])), Case{Mode: "sched", Threads: th, Schedule: x.choices()})
-				}
-			}
-			outcome(key)
-		})
+		var execs int64
+		var capped bool
+		if exploreClean {
+			execs, capped = exploreCombo(th, bound, stepBudget, shard, nshards, fresh)
+		} else {
+			execs, capped = exploreCombo(th, bound, stepBudget, 0, 1, fresh) // not split: only the owner explores
+		}
 		out.States += execs
 		out.Validated += execs
 		if capped {
-			out.Notes = append(out.Notes, fmt.Sprintf("exploration of %v stopped at the step budget after %d executions (bound %d not completed for this combination)", names(th), execs, bound))
+			out.Notes = append(out.Notes, fmt.Sprintf("exploration of %v stopped at the step budget in shard %d after %d executions (bound %d not completed for this combination)", names(th), shard, execs, bound))
 			out.Counters["capped"]++
 		}
 		// replay determinism: the default schedule twice, identical observations
@@ -638,6 +653,30 @@ func modeSched(bound, nthreads, shard, nshards int, mode string, fresh [][]byte)
 			out.fail("harness-nondeterministic-replay", fmt.Sprintf("replaying the same schedule of %v gave different observations (%d vs %d points)", names(th), len(a.points), len(b.points)), c)
 		}
 	}
+}
+
+// exploreCombo explores this shard's part of the schedules of one thread
+// combination and checks every execution against the sequential results.
+func exploreCombo(th []int, bound int, stepBudget int64, shard, nshards int, fresh [][]byte) (int64, bool) {
+	return explore(th, bound, stepBudget, shard, nshards, func(x *exec) {
+		out.Transitions += int64(len(x.points))
+		if x.divergence != "" {
+			out.fail("harness-divergence", x.divergence, Case{Mode: "sched", Threads: th, Schedule: x.devs})
+			return
+		}
+		var key []byte
+		for t, e := range th {
+			if x.panics[t] != "" {
+				out.fail("sched-panic:"+alpha.Entries[e].Name, fmt.Sprintf("%s panicked when interleaved with %v: %s", alpha.Entries[e].Name, names(th), x.panics[t]), Case{Mode: "sched", Threads: th, Schedule: x.choices()})
+				continue
+			}
+			key = append(key, x.results[t]...)
+			if !bytes.Equal(x.results[t], fresh[e]) {
+				out.fail("sched-result:"+alpha.Entries[e].Name, fmt.Sprintf("%s returned %s when interleaved with %v under schedule %v; sequentially it returns %s", alpha.Entries[e].Name, alpha.Describe(x.results[t]), names(th), compress(x.choices()), alpha.Describe(fresh[e])), Case{Mode: "sched", Threads: th, Schedule: x.choices()})
+			}
+		}
+		outcome(key)
+	})
 }
 
 func compress(devs []int) string {
